@@ -1,8 +1,11 @@
+from lib.translate_kes import translate as translate_kes
+
 SPEC = {
     "id": "C13",
     "level": "proof",
     "lean_modules": ["PallasVerif.Props.C13"],
     "required_theorems": ["forward_secure", "forward_secure_evolved", "material_derive", "forward_secure_concrete", "future_derivable", "current_leaf_present", "material_under"],
+    "translators": [translate_kes],
     "streams": [{"name": "kesfs", "quick": 20, "thorough": 420}],
     "rule": "a case = one complete evolution history: keygen (sum / compact sum alternating, depth cycling through 1..7, random non-zero seed) "
             "followed by update until the key refuses (2^d - 1 updates + the failing one); after every update the real key buffer is compared "
@@ -10,7 +13,8 @@ SPEC = {
             "leaf (seeds recomputed with an independent BLAKE2b); distinct = sha1 of the op text; non-trivial = the history crossed the half-way "
             "point 2^(d-1) (the Ordering::Equal branch that regenerates the subtree and must zero the consumed seed)",
     "trusted_base": [
-        "Model/Kes.lean (see C12) with the symbolic instance `sym`: seeds named by their path from the root, so `derives` is `prefix`; "
+        "Model/Kes.lean + Model/KesBytes.lean (see C12; the slice-level transcription run by the stream is proved to leave exactly the layout of the "
+        "tree model, C12.evolveBytes_keygen) with the symbolic instance `sym`: seeds named by their path from the root, so `derives` is `prefix`; "
         "`material` = the leaf secret key and the stored right-child seeds of the layout; tie = stream `kesfs` (whole key buffer after every "
         "update, all depths 1..7, both constructions) — the bytes outside the `material` slots being public keys / zeros / period is exactly what "
         "that comparison checks",
